@@ -12,6 +12,10 @@ import QmiModel.Props.C11BigD5
 import QmiModel.Props.C11BigD6
 import QmiModel.Props.C11BigD7
 import QmiModel.Props.C11BigE
+import QmiModel.Props.C11BigF0
+import QmiModel.Props.C11BigF1
+import QmiModel.Props.C11BigG0
+import QmiModel.Props.C11BigG1
 /-!
 # C11 — a stop request always wakes a waiting task
 
@@ -35,6 +39,10 @@ Systems (thread 0 = the task thread, which waits again and again; see `Model/Wak
 * `sysShareN`, `sysShareT` — as `sysRecvN` / `sysRecvT` (the latter with the publisher) plus a **bystander** blocked on the
   same receiver condition (a plain thread or another task sharing the receiver), which may park before or after the task:
   conditions keep their waiters in FIFO order and `notify(n)` wakes the `n` oldest only
+* `sysRecv2` — a task that blocks on **two receivers in sequence** (free choice each time; waits end by signal or stop),
+  one stop request, a publisher serving both: `_wait_cond` holds the *identity* of the registered condition
+* `sysLoopW` — the loop task whose `loop_iteration` / `process_new_settings` / `publish_signals` may themselves wait
+  (`sleep`, `get_next_signal(None | t)`): the hooks are calls from the generated `run()` into bodies supplied by the system
 * `sysEarly st n` — stop request(s) for a task thread that is not inside `task.run()` (`_state = st`)
 
 What "interleaving" means: every operation on a shared object (lock, condition, event, `_wait_cond` slot) is one step;
@@ -190,6 +198,40 @@ theorem anyTwo_good : ∀ s, Reach sysAnyTwo s → goodWaiter sysAnyTwo s = true
     | n + 24, h => omega
 
 open QmiModel.Gen.WakeCert in
+theorem recv2_good : ∀ s, Reach sysRecv2 s → goodWaiter sysRecv2 s = true := by
+  refine cert_chunks_sound recv2_init ?_
+  intro j hj
+  have hl : certRecv2.length = 10 := by decide +kernel
+  rw [hl] at hj
+  match j, hj with
+    | 0, _ => exact recv2_chunk_0
+    | 1, _ => exact recv2_chunk_1
+    | 2, _ => exact recv2_chunk_2
+    | 3, _ => exact recv2_chunk_3
+    | 4, _ => exact recv2_chunk_4
+    | 5, _ => exact recv2_chunk_5
+    | 6, _ => exact recv2_chunk_6
+    | 7, _ => exact recv2_chunk_7
+    | 8, _ => exact recv2_chunk_8
+    | 9, _ => exact recv2_chunk_9
+    | n + 10, h => omega
+
+open QmiModel.Gen.WakeCert in
+theorem loopW_good : ∀ s, Reach sysLoopW s → goodLoop sysLoopW s = true := by
+  refine cert_chunks_sound loopW_init ?_
+  intro j hj
+  have hl : certLoopW.length = 6 := by decide +kernel
+  rw [hl] at hj
+  match j, hj with
+    | 0, _ => exact loopW_chunk_0
+    | 1, _ => exact loopW_chunk_1
+    | 2, _ => exact loopW_chunk_2
+    | 3, _ => exact loopW_chunk_3
+    | 4, _ => exact loopW_chunk_4
+    | 5, _ => exact loopW_chunk_5
+    | n + 6, h => omega
+
+open QmiModel.Gen.WakeCert in
 theorem shareT_good : ∀ s, Reach sysShareT s → goodWaiter sysShareT s = true := by
   refine cert_chunks_sound shareT_init ?_
   intro j hj
@@ -210,14 +252,15 @@ set_option maxRecDepth 200000 in
 theorem cert_shareN : certB sysShareN (goodWaiter sysShareN) = true := by decide +kernel
 
 /-- the systems with a generic waiting task -/
-def waiterSystems : List Sys := [sysSleep, sysRecvN, sysRecvT, sysSleep2, sysAny, sysTwo, sysAnyTwo, sysShareN, sysShareT]
+def waiterSystems : List Sys :=
+  [sysSleep, sysRecvN, sysRecvT, sysSleep2, sysAny, sysTwo, sysAnyTwo, sysShareN, sysShareT, sysRecv2]
 
 /-- the systems with the loop task -/
-def loopSystems : List Sys := [sysLoop, sysLoop2]
+def loopSystems : List Sys := [sysLoop, sysLoop2, sysLoopW]
 
 theorem waiter_good {sys : Sys} (h : sys ∈ waiterSystems) : ∀ s, Reach sys s → goodWaiter sys s = true := by
   simp only [waiterSystems, List.mem_cons, List.not_mem_nil, or_false] at h
-  rcases h with rfl | rfl | rfl | rfl | rfl | rfl | rfl | rfl | rfl
+  rcases h with rfl | rfl | rfl | rfl | rfl | rfl | rfl | rfl | rfl | rfl
   · exact cert_sound cert_sleep
   · exact cert_sound cert_recvN
   · exact cert_sound cert_recvT
@@ -227,26 +270,30 @@ theorem waiter_good {sys : Sys} (h : sys ∈ waiterSystems) : ∀ s, Reach sys s
   · exact anyTwo_good
   · exact cert_sound cert_shareN
   · exact shareT_good
+  · exact recv2_good
 
 theorem loop_good {sys : Sys} (h : sys ∈ loopSystems) : ∀ s, Reach sys s → goodLoop sys s = true := by
   simp only [loopSystems, List.mem_cons, List.not_mem_nil, or_false] at h
-  rcases h with rfl | rfl
+  rcases h with rfl | rfl | rfl
   · exact cert_sound cert_loop
   · exact loop2_good
+  · exact loopW_good
 
 private theorem gw {sys : Sys} {s : St} (h : goodWaiter sys s = true) :
     lostWakeup sys s = false ∧ anyCrashed s = false ∧ stopSetsFlag sys s = true ∧ noParkAfterStop sys s = true ∧
-    exitOnlyByStop s = true ∧ releasedB sys endedByStop s = true ∧ progress sys s = true := by
+    exitOnlyByStop s = true ∧ releasedB sys endedByStop s = true ∧ progress sys s = true ∧
+    registrationDiscipline s = true := by
   simp only [goodWaiter, Bool.and_eq_true, Bool.not_eq_true'] at h
-  obtain ⟨⟨⟨⟨⟨⟨a, b⟩, c⟩, d⟩, e⟩, f⟩, g⟩ := h
-  exact ⟨a, b, c, d, e, f, g⟩
+  obtain ⟨⟨⟨⟨⟨⟨⟨a, b⟩, c⟩, d⟩, e⟩, f⟩, g⟩, r⟩ := h
+  exact ⟨a, b, c, d, e, f, g, r⟩
 
 private theorem gl {sys : Sys} {s : St} (h : goodLoop sys s = true) :
     lostWakeup sys s = false ∧ anyCrashed s = false ∧ stopSetsFlag sys s = true ∧ noParkAfterStop sys s = true ∧
-    loopExit s = true ∧ releasedB sys endedFinalised s = true ∧ progress sys s = true := by
+    loopExit s = true ∧ releasedB sys endedFinalised s = true ∧ progress sys s = true ∧
+    registrationDiscipline s = true := by
   simp only [goodLoop, Bool.and_eq_true, Bool.not_eq_true'] at h
-  obtain ⟨⟨⟨⟨⟨⟨a, b⟩, c⟩, d⟩, e⟩, f⟩, g⟩ := h
-  exact ⟨a, b, c, d, e, f, g⟩
+  obtain ⟨⟨⟨⟨⟨⟨⟨a, b⟩, c⟩, d⟩, e⟩, f⟩, g⟩, r⟩ := h
+  exact ⟨a, b, c, d, e, f, g, r⟩
 
 /-- all kernel-checked systems in which the task thread is inside `task.run()` -/
 def allSystems : List Sys := loopSystems ++ waiterSystems
@@ -254,13 +301,13 @@ def allSystems : List Sys := loopSystems ++ waiterSystems
 /-- the obligations common to the loop task and the generic waiting tasks -/
 private theorem common {sys : Sys} (h : sys ∈ allSystems) (s : St) (hs : Reach sys s) :
     lostWakeup sys s = false ∧ anyCrashed s = false ∧ stopSetsFlag sys s = true ∧ noParkAfterStop sys s = true ∧
-    progress sys s = true := by
+    progress sys s = true ∧ registrationDiscipline s = true := by
   simp only [allSystems, List.mem_append] at h
   rcases h with h | h
   · have g := gl (loop_good h s hs)
-    exact ⟨g.1, g.2.1, g.2.2.1, g.2.2.2.1, g.2.2.2.2.2.2⟩
+    exact ⟨g.1, g.2.1, g.2.2.1, g.2.2.2.1, g.2.2.2.2.2.2.1, g.2.2.2.2.2.2.2⟩
   · have g := gw (waiter_good h s hs)
-    exact ⟨g.1, g.2.1, g.2.2.1, g.2.2.2.1, g.2.2.2.2.2.2⟩
+    exact ⟨g.1, g.2.1, g.2.2.1, g.2.2.2.1, g.2.2.2.2.2.2.1, g.2.2.2.2.2.2.2⟩
 
 /-! ## the property -/
 
@@ -293,13 +340,36 @@ theorem no_thread_error_and_flag_set {sys : Sys} (h : sys ∈ allSystems) :
 theorem no_deadlock {sys : Sys} (h : sys ∈ allSystems) :
     ∀ s, Reach sys s → (∀ t, taskTh s = some t → t.finished = false) → succs sys s ≠ [] := by
   intro s hs hf
-  have key := (common h s hs).2.2.2.2
+  have key := (common h s hs).2.2.2.2.1
   simp only [progress, Bool.or_eq_true, Bool.not_eq_true', List.isEmpty_eq_false_iff] at key
   rcases key with k | k
   · cases ht : taskTh s with
     | none => simp [ht] at k
     | some t => simp [ht, hf t ht] at k
   · exact k
+
+/-- **Every wait registers its own condition and unregisters it on every exit path** (`wait_for_condition`, whichever of
+    the receivers the task is blocking on, one after the other): whenever the task thread is parked on a receiver's
+    condition, `_wait_cond` holds exactly that condition (lock `l` belongs to the condition with number `l - 1`), and whenever
+    the task thread is outside `wait_for_condition` the slot is empty — no stale registration survives a wait, however it
+    ended (signal, time-out, stop). -/
+theorem registration_discipline {sys : Sys} (h : sys ∈ allSystems) :
+    ∀ s, Reach sys s → ∀ t, taskTh s = some t →
+      (∀ l n, t.park = .cond l n → 2 ≤ l → s.wc = l - 1) ∧ (t.inWaitFn = false → s.wc = 0) := by
+  intro s hs t ht
+  have key := (common h s hs).2.2.2.2.2
+  simp only [registrationDiscipline, ht, Bool.and_eq_true, Bool.or_eq_true, beq_iff_eq] at key
+  constructor
+  · intro l n hp hl
+    have k := key.1
+    simp only [hp, Bool.or_eq_true, decide_eq_true_eq, beq_iff_eq] at k
+    rcases k with k | k
+    · omega
+    · exact k
+  · intro hi
+    rcases key.2 with k | k
+    · simp [hi] at k
+    · exact k
 
 /-- **A wait that starts after `stop()` does not park**: once a stop request has completed, a task thread that is not
     parked never parks again — whichever wait it enters next (`sleep`, `get_next_signal`, with or without timeout). -/
